@@ -429,6 +429,8 @@ class C15(Prop):
                                    "fx restore_object [/d/f.txt.o]", "fx save_object [/d/f.txt.o]", "policy allow",
                                    "fx read_file [/d/f.txt]", "policy deny", "fx read_file [/d/f.txt]", "fx write_file [/d/f.txt]"])
         mk("include", ["inc %s %s" % (br(b), br(n)) for b in INC_BASES for n in INC_NAMES])
+        mk("include-angle", ["inca %s %s" % (br(b), br(n)) for b in INC_BASES[1:] for n in INC_NAMES if "//" not in n])   # `//` starts a comment there
+        mk("include-macro", ["incm %s %s" % (br(b), br(n)) for b in INC_BASES[:2] for n in INC_NAMES])
         for i, n in enumerate(INH_NAMES):
             mk("inherit-%d" % i, ["inh [t/y.c] " + br(n)])
         mk("load", ["ld " + br(n) for n in INH_NAMES + ["/a/a.c", "d/obj.c.c", "/t/none", "a/"]])
@@ -558,7 +560,10 @@ class C15(Prop):
                         nm = "/" + nm
                     if nm in ("x.c", "t/x.c", "/t/x.c", "./x.c") or nm.endswith("x.c"):
                         continue
-                    lines.append("inc %s %s" % (br(rng.choice(["t/x.c", "t/u/x.c"])), br(nm)))
+                    kind = rng.choice(["inc", "inc", "inca", "incm"])
+                    if kind == "inca" and "//" in nm:     # `#include <a//b>`: the lexer takes `//` for a comment
+                        kind = "inc"
+                    lines.append("%s %s %s" % (kind, br(rng.choice(["t/x.c", "t/u/x.c"])), br(nm)))
             out.append(E.Case("g%d" % i, lines, {"origin": "generated"}))
         for i in range(max(1, n // 40)):     # saved binaries: random object names
             names = []
